@@ -264,12 +264,12 @@ func (e *ExecutorV3) RunTx(context state.Interface, rawTx []byte, rewardPool *bi
 				if balance.Cmp(commission) == -1 {
 					commission = big.NewInt(0).Set(balance)
 					if isGasCommissionFromPoolSwap {
-						if !commissions.Coin.IsBaseCoin() {
-							var resp *Response
-							resp, commissionInBaseCoin, _ = CheckSwap(commissionPoolSwapper, checkState.Coins().GetCoin(tx.CommissionCoin()), checkState.Coins().GetCoin(0), commission, big.NewInt(0), false)
-							if resp != nil {
-								return *resp
-							}
+						// the capped amount is a new amount: it has to be checked against the pool
+						// whatever coin the price table is denominated in (selling dust panics)
+						var resp *Response
+						resp, commissionInBaseCoin, _ = CheckSwap(commissionPoolSwapper, checkState.Coins().GetCoin(tx.CommissionCoin()), checkState.Coins().GetCoin(0), commission, big.NewInt(0), false)
+						if resp != nil {
+							return *resp
 						}
 						if commissionInBaseCoin == nil || commissionInBaseCoin.Sign() != 1 {
 							return Response{
